@@ -1411,6 +1411,15 @@ impl<'a, 'b> Gen<'a, 'b> {
             self.fun_value_use = true;
         }
         let d = depth.saturating_sub(1);
+        // now and then a call whose operands are all compile-time constants (what the cl23+
+        // optimiser evaluates at compile time), a constant &rest tail included
+        let constant_call = !f.recursive && self.c.chance(36);
+        if constant_call {
+            self.feat("call-with-constant-operands");
+        }
+        let d = if constant_call { 0 } else { d };
+        let empty_scope: Scope = vec![];
+        let scope: &Scope = if constant_call { &empty_scope } else { scope };
         let mut args: Vec<Expr> = f.params.iter().map(|p| self.gen_expr(&pat_ty(p), scope, d)).collect();
         let mut rest = None;
         if let Some((_, rt)) = &f.rest {
